@@ -147,3 +147,40 @@ lemma(
     uses=[("le128_ext", {"a": "enc", "b": "delta", "lo": "0", "hi": "len(enc)"})],
     show=["dec[0] == size", "dec[1] == len(enc)"],
 )
+
+
+# ---- encoder: well-formedness of every emitted instruction (pure-Python create_delta) -------------------
+from pyvc.contract import class_spec
+class_spec(file="<stdlib>", cls="SequenceMatcher", fields={"a": "bytes", "b": "bytes"})
+contract(
+    prop=["C03", "C15"], file="<stdlib>", func="difflib.SequenceMatcher", trusted=True,
+    params={"isjunk": "opaque", "a": "bytes", "b": "bytes"}, returns="obj:SequenceMatcher",
+    ensures=["result.a == a", "result.b == b"],
+)
+contract(
+    prop=["C03", "C15"], file="<stdlib>", func="SequenceMatcher.get_opcodes", trusted=True,
+    params={"self": "obj:SequenceMatcher"}, returns="iter:tuple[str,int,int,int,int]",
+    options={"item_ensures": [
+        "0 <= item[1] and item[1] <= item[2] and item[2] <= len(self.a)",
+        "0 <= item[3] and item[3] <= item[4] and item[4] <= len(self.b)",
+        # difflib never reports an empty replace / insert block (checked at run time by the bounded round trip)
+        "not (item[0] == 'replace' or item[0] == 'insert') or item[4] > item[3]",
+        "not (item[0] == 'equal') or item[2] - item[1] == item[4] - item[3]",
+    ]},
+    note="assumed contract of difflib.SequenceMatcher.get_opcodes(): blocks lie inside a and b, equal blocks have equal lengths",
+)
+contract(
+    prop=["C03", "C15"], file=P, func="_create_delta_py",
+    params={"base_buf": "bytes", "target_buf": "bytes"}, returns="chunks",
+    requires=["len(base_buf) < 2 ** 32"],         # copy offsets are encoded in at most four bytes (bound found from the encoder)
+    loops={
+        2: dict(invariant=["copy_len >= 0", "i1 <= copy_start and copy_start + copy_len == i2"], decreases="copy_len"),
+        3: dict(invariant=["s >= 1", "j1 <= o and o + s == j2"], decreases="s"),
+    },
+    options={"asserts": [
+        # an insert instruction is 1..127 followed by exactly that many literal bytes of the target
+        ("insert-header", "yield bytes([s])", ["1 <= s and s <= 127"]),
+        ("insert-literal", "yield bytes(memoryview(target_buf)[o : o + s])", ["0 <= o and o + s <= len(target_buf)"]),
+        ("insert-literal-127", "yield bytes(memoryview(target_buf)[o : o + 127])", ["0 <= o and o + 127 <= len(target_buf)"]),
+    ]},
+)
